@@ -302,7 +302,10 @@ Definition nlop_eqb (a b : nlop) : bool :=
   | NReplace x, NReplace y | NDel x, NDel y => rkey_eqb x y
   | _, _ => false
   end.
-Inductive fkind := FErr | FEintr | FNotFound.
+(* FEintrP ks muts (whole-table route dump only): the dump yields the routes with keys ks, then somebody else changes
+   the kernel (muts: key -> new route or deletion) and the dump fails with EINTR ("table changed mid-dump") *)
+Inductive fkind := FErr | FEintr | FNotFound
+                 | FEintrP (ks : list rkey) (muts : list (kkey * option kroute)).
 (* a plan names the calls that fail during one Apply: (operation, how many calls of exactly that
    operation preceded it within this Apply, kind of error) *)
 Definition plan := list (nlop * N * fkind).
@@ -403,6 +406,33 @@ Fixpoint list_retry (p : plan) (op : nlop) (fuel : nat) (w : world) : bool * wor
       end
   end.
 
+Definition env_mut (e : env) (muts : list (kkey * option kroute)) : env :=
+  {| e_links := e_links e;
+     e_routes := fold_left (fun m kv => match snd kv with
+                                        | Some r => set kkey_eqb m (fst kv) r
+                                        | None => remove kkey_eqb m (fst kv)
+                                        end) muts (e_routes e);
+     e_now := e_now e |}.
+
+(* the whole-table dump of doFullResync with its retry loop: an interrupted dump has already passed the routes it
+   yielded to the callback (they are recorded in the tracker's dataplane view); seenKeys is cleared before the retry,
+   so only the dump that completes decides what the end-of-resync sweep keeps.  true = listing failed *)
+Fixpoint full_list (cfg : config) (p : plan) (now : N) (fuel : nat) (w : world) : bool * world :=
+  match fuel with
+  | O => (true, w)
+  | S fuel' =>
+      let '(f, w1) := nl_call p NRouteListAll w in
+      match f with
+      | None => (false, w1)
+      | Some FEintr => full_list cfg p now fuel' w1
+      | Some (FEintrP ks muts) =>
+          let rs := filter (fun kr => mem rkey_eqb (fst kr) ks) (table_routes cfg (w_env w1)) in
+          let '(s2, _) := absorb cfg now true rs (w_st w1) in
+          full_list cfg p now fuel' (wenv (wst w1 s2) (env_mut (w_env w1) muts))
+      | Some _ => (true, w1)
+      end
+  end.
+
 Definition do_full_resync (cfg : config) (p : plan) (w : world) : bool * world :=
   let now := e_now (w_env w) in
   let '(f, w1) := nl_call p NLinkList w in
@@ -410,7 +440,7 @@ Definition do_full_resync (cfg : config) (p : plan) (w : world) : bool * world :
   | Some _ => (true, w1)
   | None =>
       let s1 := refresh_all cfg now (e_links (w_env w1)) (w_st w1) in
-      let '(failed, w2) := list_retry p NRouteListAll 5 (wst w1 s1) in
+      let '(failed, w2) := full_list cfg p now 5 (wst w1 s1) in
       if failed then (true, w2)
       else
         let '(s2, seen) := absorb cfg now true (table_routes cfg (w_env w2)) (w_st w2) in
